@@ -372,6 +372,15 @@ func predict(m *model, o *op, condKeys map[string]bool) *prediction {
 		for _, rc := range o.recs {
 			k := keyOf(rc)
 			if m.seedFor(k) != nil {
+				if o.ocWhere != nil && !o.ocKeys[k] {
+					// a conditional upsert: the stored row does not satisfy the condition of DO UPDATE
+					for c, e := range p.rows[k].cells {
+						e.cls = "conflict-row-outside-onconflict-where-changed"
+						e.why = "the row's key conflicts, but the row does not satisfy OnConflict.Where"
+						p.rows[k].cells[c] = e
+					}
+					continue
+				}
 				p.conflictRow(m, o, rc, k)
 				p.target = append(p.target, k)
 			} else {
